@@ -18,75 +18,137 @@ PRE = ["--", "++", "!!", "??", "#"]
 SUF = ["._", ".|"]
 
 
-# a program is a list of pieces (text, kind); kind: atom | op | ws | sep | open | close
+# a program is a tree: a node is a list of parts; a part is (text, kind) or a nested node
+# (a Python list) that is a complete operand.  kind: atom | op | ws | lsep | sep | open | close
 def gen(rng, depth):
+    """returns a node (list of parts)"""
     if depth <= 0 or rng.random() < 0.2:
         return [(rng.choice(ATOMS), "atom")]
     k = rng.random()
-    if k < 0.45:
-        return gen(rng, depth - 1) + [(" ", "ws"), (rng.choice(BIN), "op"), (" ", "ws")] + gen(rng, depth - 1)
-    if k < 0.55:
-        return [(rng.choice(PRE), "op")] + gen(rng, depth - 1)
-    if k < 0.62:
-        return gen(rng, depth - 1) + [(rng.choice(SUF), "op")]
-    if k < 0.75:
-        return [("(", "open")] + gen(rng, depth - 1) + [(")", "close")]
-    if k < 0.85:
-        out = gen(rng, depth - 2)
+    if k < 0.40:
+        return [gen(rng, depth - 1), (" ", "ws"), (rng.choice(BIN), "op"), (" ", "ws"), gen(rng, depth - 1)]
+    if k < 0.48:
+        return [(rng.choice(PRE), "op"), gen(rng, depth - 1)]
+    if k < 0.54:
+        return [gen(rng, depth - 1), (rng.choice(SUF), "op")]
+    if k < 0.64:
+        return [("(", "open"), gen(rng, depth - 1), (")", "close")]
+    if k < 0.73:
+        out = [gen(rng, depth - 2)]
         for _ in range(rng.randint(1, 2)):
-            out += [(" ", "lsep")] + gen(rng, depth - 2)   # the whitespace IS the list operator
+            out += [(" ", "lsep"), gen(rng, depth - 2)]   # the whitespace IS the list operator
         return out
-    if k < 0.93:
-        return gen(rng, depth - 1) + [(" ", "ws"), (rng.choice(["?>", "!>"]), "op"), (" ", "ws")] + gen(rng, depth - 1) + \
-               [(" ", "ws"), ("|>", "op"), (" ", "ws")] + gen(rng, depth - 2)
-    return gen(rng, depth - 1) + [("\n\n", "sep")] + gen(rng, depth - 1)
+    if k < 0.80:
+        return [gen(rng, depth - 1), (" ", "ws"), (rng.choice(["?>", "!>"]), "op"), (" ", "ws"), gen(rng, depth - 1),
+                (" ", "ws"), ("|>", "op"), (" ", "ws"), gen(rng, depth - 2)]
+    if k < 0.86:
+        return [gen(rng, depth - 1), ("\n\n", "sep"), gen(rng, depth - 1)]
+    if k < 0.96:
+        # nested expression, possibly with a multi-line body, applied
+        body = [gen(rng, depth - 2)]
+        for _ in range(rng.randint(0, 2)):
+            body += [("\n\n", "sep"), gen(rng, depth - 2)]
+        ne = [("{", "open")] + body + [("}", "close")]
+        tail = rng.choice([[("~~", "op")], [(" ", "ws"), ("<~", "op"), (" ", "ws"), (rng.choice(ATOMS), "atom")], []])
+        return [ne] + tail
+    return [gen(rng, depth - 1), (" ", "ws"), ("[", "open"), gen(rng, depth - 2), ("\n\n", "sep"), gen(rng, depth - 2), ("]", "close")]
 
 
-def text(pieces):
-    return "".join(p for p, _ in pieces)
+def text(node):
+    return "".join(text(p) if isinstance(p, list) else p[0] for p in node)
 
 
-def rewrites(pieces, rng):
-    """all single applications of the rewrites, as (name, new pieces)"""
+def positions(node, path=()):
+    """yield (path, part) for every part, depth first"""
+    for i, p in enumerate(node):
+        yield path + (i,), p
+        if isinstance(p, list):
+            yield from positions(p, path + (i,))
+
+
+def replace_at(node, path, new_parts):
+    """copy of node with the part at path replaced by the list new_parts (spliced)"""
+    i = path[0]
+    if len(path) == 1:
+        return node[:i] + new_parts + node[i + 1:]
+    return node[:i] + [replace_at(node[i], path[1:], new_parts)] + node[i + 1:]
+
+
+def is_operand(part):
+    """a complete operand that may be wrapped in parentheses: an atom, a parenthesised group or a `{ }` nested expression"""
+    if not isinstance(part, list):
+        return part[1] == "atom"
+    first = part[0]
+    return (not isinstance(first, list)) and first[1] == "open" and first[0] in ("(", "{") and len(part) >= 2 and \
+        (not isinstance(part[-1], list)) and part[-1][1] == "close"
+
+
+def rewrites(node, rng):
+    """all single applications of the rewrites, as (name, new tree)"""
     out = []
-    for i, (p, k) in enumerate(pieces):
+    for path, p in positions(node):
+        if isinstance(p, list):
+            if is_operand(p):
+                out.append(("parens", replace_at(node, path, [[("(", "open"), p, (")", "close")]])))
+            continue
+        t, k = p
         if k in ("ws", "lsep"):
-            out.append(("widen", pieces[:i] + [(rng.choice(["  ", " \t", "\t", "   "]), k)] + pieces[i + 1:]))
-            out.append(("annotation", pieces[:i] + [(" @note ", k)] + pieces[i + 1:]))
+            out.append(("widen", replace_at(node, path, [(rng.choice(["  ", " \t", "\t", "   "]), k)])))
+            out.append(("annotation", replace_at(node, path, [(" @note ", k)])))
         if k == "ws":
-            out.append(("remove_ws", pieces[:i] + pieces[i + 1:]))
+            out.append(("remove_ws", replace_at(node, path, [])))
         if k == "sep":
-            out.append(("trailing_ws", pieces[:i] + [(rng.choice([" ", "\t", "  \t"]) + p, "sep")] + pieces[i + 1:]))
-            out.append(("comment_line", pieces[:i] + [(p + "@@ a comment\n", "sep")] + pieces[i + 1:]))
+            out.append(("trailing_ws", replace_at(node, path, [(rng.choice([" ", "\t", "  \t"]) + t, "sep")])))
+            out.append(("blank_line_ws", replace_at(node, path, [("\n" + rng.choice([" ", "\t", "\t ", " \t", "  "]) + "\n", "sep")])))
+            out.append(("comment_line", replace_at(node, path, [(t + "@@ a comment\n", "sep")])))
         if k == "atom":
-            out.append(("parens", pieces[:i] + [("(", "open"), (p, k), (")", "close")] + pieces[i + 1:]))
-            out.append(("side_effect", pieces[:i] + [(p, k), (" ", "ws"), ("[0]", "atom")] + pieces[i + 1:]))
-        if k == "op" and i + 1 < len(pieces) and pieces[i + 1][1] != "ws" and p in PRE:
-            pass
-    out.append(("leading_comment", [("@@ first line\n", "ws")] + pieces))
-    out.append(("trailing_comment", pieces + [(" @@ last", "ws")]))
-    out.append(("trailing_space", pieces + [("  ", "ws")]))
+            out.append(("parens", replace_at(node, path, [[("(", "open"), p, (")", "close")]])))
+            out.append(("side_effect", replace_at(node, path, [p, (" ", "ws"), ("[0]", "atom")])))
+    out.append(("leading_comment", [("@@ first line\n", "ws")] + node))
+    out.append(("trailing_comment", node + [(" @@ last", "ws")]))
+    out.append(("trailing_space", node + [("  ", "ws")]))
     return out
 
 
+VALUE_DEFS = ("Number", "CharList", "ByteList", "Identifier", "Property", "Symbol", "Unit", "Value", "True", "False")
+
+
 def shape(parsed, defs, strip_side_effects=False):
-    """parse tree modulo trivia (no token indices) and modulo group nodes"""
+    """parse tree modulo trivia (no token indices), modulo group nodes, and modulo HOW side-effect
+    blocks are attached to the operand they follow (right child of a value node, or a node that took
+    the operand over as its left child, chained either way): an operand followed by blocks reads
+    `After(operand,[body1],[body2],..)`"""
     nodes = parsed["nodes"]
     if not nodes:
         return "empty"
 
-    def go(i, depth=0):
+    def split(i, depth):
+        """(core shape or None, [block bodies]) of the subtree at i"""
         if i is None:
-            return "-"
+            return "-", []
         if depth > 4 * len(nodes) + 4 or not (0 <= i < len(nodes)):
-            return "?"
+            return "?", []
         n = nodes[i]
         d = defs[n["def"]]
         if d == "Group" and n["left"] is None:
-            return go(n["right"], depth + 1)
+            return split(n["right"], depth + 1)
         if d == "Property":
             d = "Identifier"
-        return "%s(%s,%s)" % (d, go(n["left"], depth + 1), go(n["right"], depth + 1))
+        if d == "SideEffect":
+            core, blocks = split(n["left"], depth + 1) if n["left"] is not None else (None, [])
+            return core, blocks + [go(n["right"], depth + 1)]
+        r = n["right"]
+        if d in VALUE_DEFS and r is not None and 0 <= r < len(nodes) and defs[nodes[r]["def"]] == "SideEffect":
+            c2, blocks = split(r, depth + 1)
+            if c2 is None:
+                return "%s(%s,-)" % (d, go(n["left"], depth + 1)), blocks
+        return "%s(%s,%s)" % (d, go(n["left"], depth + 1), go(n["right"], depth + 1)), []
+
+    def go(i, depth=0):
+        core, blocks = split(i, depth)
+        if not blocks:
+            return core
+        return "After(%s,%s)" % (core if core is not None else "nothing", ",".join("[%s]" % b for b in blocks))
     return go(parsed["root"])
 
 
@@ -168,7 +230,15 @@ def run(tier, seed):
                 extra = {"parens": 2, "side_effect": 3}.get(name, 0)
                 it = iter(s1)
                 if len(s1) != len(s0) + extra or not all(t in it for t in s0):
-                    stats[name + ":not_applicable"] += 1
+                    if name in ("remove_ws", "parens", "side_effect"):
+                        # gluing characters together can legitimately re-tokenise (`5 . 5` -> `5.5`): rewrite not applicable
+                        stats[name + ":not_applicable"] += 1
+                        continue
+                    # every other rewrite only touches trivia: a different token sequence IS the violation
+                    v.violation(component="layout", rewrite=name, input="S " + gen_programs.hexcp(txt),
+                                original=text(progs[pi]), rewritten=txt,
+                                what=name + ": the sequence of non-trivia tokens changed: %s -> %s" % (
+                                    [tts[t] for t in s0][:12], [tts[t] for t in s1][:12]))
                     continue
                 stats[name + ":applied"] += 1
                 distinct.add(txt)
